@@ -184,6 +184,19 @@ func runBack(res *core.CaseResult, c core.CaseDesc, p caseP) {
 	}
 	w.genOps(r, n)
 	w.run(0, len(w.ops))
+	// "Sync ... making those new records appear in queries": asked right when
+	// it returns (unbounded logs only: rotation may hide records at any time)
+	if cfg.MaxRecords == 0 {
+		res.Evals++
+		if err := st.mem.Sync(); err == nil {
+			want := int(st.mem.MachineRecord().NextId) - 1
+			if l, err := list(st.mem); err == nil && len(l) < want {
+				res.Violate("C17/"+p.Backend+"/sync/not-visible-at-return", fmt.Sprintf(
+					"Sync returned and FindLatest shows %d records, %d had been handed to the backend (batch %d; %s)", len(l), want, batch, cfgStr(cfg)), nil)
+				return
+			}
+		}
+	}
 	_, err = settle(st.mem)
 	// rotation is evaluated when a batch is written, against counters that the
 	// write-behind goroutine updates: after a burst it needs further batches to
